@@ -59,7 +59,7 @@ func (c06) Info() core.Info {
 			"descriptor bodies are compared through the decoders for the decodable kinds; opaque descriptors by tag only (the API exposes no raw body)",
 			"after an injected reader error ReadPMT may return that error or the exact answer; truncation before the last needed packet must give ErrPMTNotFound",
 		},
-		RequiredProbes: []string{"first_packet_payload_le3", "split_inside_header", "split_inside_descriptor", "split_before_crc", "pointer_gt0", "foreign_section_before", "interleaved", "af_len0_stuffing", "multi_packet_ge3", "section_len_ge_1000", "other_pmt_on_other_pid", "trailing_stuffing", "truncated_before_end", "zero_streams", "es_info_length_ge_256", "program_info_length_ge_256", "prelude_unit_on_pmt_pid", "pointer_255", "held_pmt_rechecked"},
+		RequiredProbes: []string{"first_packet_payload_le3", "split_inside_header", "split_inside_descriptor", "split_before_crc", "pointer_gt0", "foreign_section_before", "interleaved", "af_len0_stuffing", "multi_packet_ge3", "section_len_ge_1000", "other_pmt_on_other_pid", "trailing_stuffing", "truncated_before_end", "zero_streams", "es_info_length_ge_256", "program_info_length_ge_256", "prelude_unit_on_pmt_pid", "pointer_255", "held_pmt_rechecked", "more_than_255_descriptors", "entry_starts_with_ff_ff_ff"},
 	}
 }
 
@@ -296,6 +296,12 @@ func (c06) Exec(script interface{}, c *core.Ctx) {
 		}
 		if n >= 256 {
 			c.Probe("es_info_length_ge_256")
+		}
+		if len(e.Descs) > 255 {
+			c.Probe("more_than_255_descriptors")
+		}
+		if e.Type == 0xFF && e.PID == 0x1FFF {
+			c.Probe("entry_starts_with_ff_ff_ff")
 		}
 	}
 	{
